@@ -308,6 +308,11 @@ func (fm *FieldMask) PathInMask(desc *thrift_reflection.TypeDescriptor, path str
 
 // getPathAncestor tells if a given path is in current fieldmask, and return the nearest settled ancestor (include itself)
 func (cur *FieldMask) GetPath(desc *thrift_reflection.TypeDescriptor, path string) (*FieldMask, bool) {
+	// like addPath, walk the types behind typedefs
+	desc = unwrapDesc(desc)
+	if desc == nil {
+		return nil, false
+	}
 	it := newPathIter(path)
 	// println("[PathInMask]")
 	last := cur
@@ -386,7 +391,7 @@ func (cur *FieldMask) GetPath(desc *thrift_reflection.TypeDescriptor, path strin
 			}
 
 			// deep to next desc
-			desc = f.GetType()
+			desc = unwrapDesc(f.GetType())
 			if desc == nil {
 				return nil, false
 			}
@@ -399,7 +404,7 @@ func (cur *FieldMask) GetPath(desc *thrift_reflection.TypeDescriptor, path strin
 			if !desc.IsList() {
 				return nil, false
 			}
-			et := desc.GetValueType()
+			et := unwrapDesc(desc.GetValueType())
 			if et == nil {
 				return nil, false
 			}
@@ -450,7 +455,7 @@ func (cur *FieldMask) GetPath(desc *thrift_reflection.TypeDescriptor, path strin
 			if !desc.IsMap() {
 				return nil, false
 			}
-			et := desc.GetValueType()
+			et := unwrapDesc(desc.GetValueType())
 			if et == nil {
 				return nil, false
 			}
